@@ -112,7 +112,8 @@ def run(task, ctx, check_one, strategy_of=None, fixed_cases=None):
     elif kind == 'fixed':
         def loop():
             for case in fixed_cases(task['name']):
-                check_one(case, ctx, True)
+                # big structured cases get one plain pass (the history devices would multiply minutes)
+                check_one(case, ctx, not str(case.get('f', '')).startswith('big'))
         ctx.guarded(loop)
     else:
         raise ValueError(kind)
